@@ -43,7 +43,9 @@ type Work struct {
 	CtxMode   int    `json:"ctx_mode,omitempty"` // 0 simulated cancellable context, 1 context.Background()
 	Workers   int    `json:"workers,omitempty"`  // >1: the last channel is drained by a pool of this many goroutines (fan-out)
 	WorkForm  int    `json:"work_form,omitempty"`
-	ResBuf    int    `json:"res_buf,omitempty"` // buffer of the pool's result channel (0 = 2)
+	ResBuf    int    `json:"res_buf,omitempty"`   // buffer of the pool's result channel (0 = 2)
+	AnonSend  bool   `json:"anon_send,omitempty"` // sends go through an anonymous call site shared by several goroutines
+	Nils      bool   `json:"nils,omitempty"`      // interface channels also carry nil items
 }
 
 type Prop struct{}
@@ -59,7 +61,7 @@ func (Prop) Gen(seed int64, tier string) *harness.Case {
 	np := 1 + r.Intn(3)
 	for i := 0; i < np; i++ {
 		w.Items = append(w.Items, 1+r.Intn(8))
-		w.Spawn = append(w.Spawn, r.Intn(4))
+		w.Spawn = append(w.Spawn, r.Intn(nSpawn))
 	}
 	stages := 1 + r.Intn(3)
 	maxN := 0
@@ -77,7 +79,7 @@ func (Prop) Gen(seed int64, tier string) *harness.Case {
 	w.ConsForm = r.Intn(3)
 	w.Sleep = r.Intn(5) == 0
 	w.Epilogue = r.Intn(2) == 0
-	w.FwdSpawn = r.Intn(2)
+	w.FwdSpawn = r.Intn(4)
 	w.MutateArg = r.Intn(2) == 0
 	if r.Intn(4) == 0 {
 		w.CtxMode = 1
@@ -86,6 +88,8 @@ func (Prop) Gen(seed int64, tier string) *harness.Case {
 		w.Workers = 2 + r.Intn(3)
 		w.WorkForm = r.Intn(3)
 	}
+	w.AnonSend = r.Intn(3) == 0
+	w.Nils = w.Elem == "interface" && r.Intn(2) == 0
 	if tier == "real" {
 		// the real-thread leg wants contention: many items, pools of receivers, no sleeps
 		for i := range w.Items {
@@ -109,6 +113,15 @@ func (Prop) Gen(seed int64, tier string) *harness.Case {
 			w.ResBuf = tot
 		}
 	}
+	if w.Nils {
+		// nil is a legal item of an interface channel; only the nil-terminated consumer form cannot carry it
+		// (applied last: the tier-specific adjustments above draw the forms again)
+		for i := range w.FwdForm {
+			w.FwdForm[i] %= 2
+		}
+		w.ConsForm %= 2
+		w.WorkForm %= 2
+	}
 	wb, _ := json.Marshal(w)
 	density := []int{0, 5, 20, 50, 80}[r.Intn(5)]
 	total := 0
@@ -129,11 +142,34 @@ func (Prop) Gen(seed int64, tier string) *harness.Case {
 		Choices: cs, Source: Render(&w)}
 }
 
-func itemExpr(elem string) string {
+const nSpawn = 8
+
+// wantArgs is what producer p must have received as its parameters.
+func wantArgs(w *Work, p int) string {
+	id, n := int64(p+1), int64(w.Items[p])
+	switch w.Spawn[p] % nSpawn {
+	case 2:
+		return fmt.Sprint([]interface{}{id, int64(12), int64(13), int64(14), n})
+	case 3, 7:
+		return fmt.Sprint([]interface{}{id, n, int64(9)})
+	case 4:
+		return fmt.Sprint([]interface{}{id, int64(12), n})
+	case 5:
+		return fmt.Sprint([]interface{}{id, int64(12), int64(13), n})
+	case 6:
+		return fmt.Sprint([]interface{}{id, int64(12), int64(13), int64(14), int64(15), n})
+	}
+	return fmt.Sprint([]interface{}{id, n})
+}
+
+func itemExpr(elem string, nils bool) string {
 	switch elem {
 	case "string":
 		return `"p" + id + "_" + i`
 	case "interface":
+		if nils {
+			return `i % 3 == 0 ? nil : (i % 2 == 0 ? id * 100 + i : "p" + id + "_" + i)`
+		}
 		return `i % 2 == 0 ? id * 100 + i : "p" + id + "_" + i`
 	}
 	return "id * 100 + i"
@@ -187,10 +223,19 @@ func Render(w *Work) string {
 	if w.Sleep {
 		sl = "sleep(1)\n"
 	}
-	body := "for i = 1; i <= n; i++ {\n" + sl + "ch0 <- " + itemExpr(w.Elem) + "\n}\ndn <- id\n"
-	b.WriteString("func prod(id, n) {\n" + body + "}\n")
-	b.WriteString("func prod5(id, n, x3, x4, x5) {\n" + body + "}\n")
-	b.WriteString("func prodv(id, rest...) {\nn = rest[0]\n" + body + "}\n")
+	send := "ch0 <- " + itemExpr(w.Elem, w.Nils)
+	if w.AnonSend {
+		// one anonymous-call site evaluated by every producer goroutine
+		send = "func(x) { ch0 <- x }(" + itemExpr(w.Elem, w.Nils) + ")"
+	}
+	body := "for i = 1; i <= n; i++ {\n" + sl + send + "\n}\ndn <- id\n"
+	b.WriteString("func prod(id, n) {\nargs(id, n)\n" + body + "}\n")
+	b.WriteString("func prod3(id, a2, n) {\nargs(id, a2, n)\n" + body + "}\n")
+	b.WriteString("func prod4(id, a2, a3, n) {\nargs(id, a2, a3, n)\n" + body + "}\n")
+	b.WriteString("func prod5(id, a2, a3, a4, n) {\nargs(id, a2, a3, a4, n)\n" + body + "}\n")
+	b.WriteString("func prod6(id, a2, a3, a4, a5, n) {\nargs(id, a2, a3, a4, a5, n)\n" + body + "}\n")
+	b.WriteString("func prodv(id, rest...) {\nn = rest[0]\nargs(id, rest[0], rest[1])\n" + body + "}\n")
+	b.WriteString("func prodw(all...) {\nid = all[0]\nn = all[1]\nargs(id, n, all[2])\n" + body + "}\n")
 	fmt.Fprintf(&b, "ns = [")
 	for i, n := range w.Items {
 		if i > 0 {
@@ -201,15 +246,23 @@ func Render(w *Work) string {
 	b.WriteString("]\n")
 	for p := 0; p < np; p++ {
 		fmt.Fprintf(&b, "pid = %d\n", p+1)
-		switch w.Spawn[p] % 4 {
+		switch w.Spawn[p] % nSpawn {
 		case 0:
 			b.WriteString("go prod(pid, ns[pid - 1])\n")
 		case 1:
-			b.WriteString("go func(id, n) {\n" + body + "}(pid, ns[pid - 1])\n")
+			b.WriteString("go func(id, n) {\nargs(id, n)\n" + body + "}(pid, ns[pid - 1])\n")
 		case 2:
-			b.WriteString("go prod5(pid, ns[pid - 1], 3, 4, 5)\n")
-		default:
+			b.WriteString("go prod5(pid, 12, 13, 14, ns[pid - 1])\n")
+		case 3:
 			b.WriteString("go prodv(pid, ns[pid - 1], 9)\n")
+		case 4:
+			b.WriteString("go prod3(pid, 12, ns[pid - 1])\n")
+		case 5:
+			b.WriteString("go prod4(pid, 12, 13, ns[pid - 1])\n")
+		case 6:
+			b.WriteString("go prod6(pid, 12, 13, 14, 15, ns[pid - 1])\n")
+		default:
+			b.WriteString("go prodw([pid, ns[pid - 1], 9]...)\n")
 		}
 		if w.MutateArg {
 			b.WriteString("pid = 77\n")
@@ -220,10 +273,17 @@ func Render(w *Work) string {
 		in, out := fmt.Sprintf("ch%d", s-1), fmt.Sprintf("ch%d", s)
 		v := fmt.Sprintf("v%d", s)
 		loop := consumerLoop(w.FwdForm[s-1], in, v, out+" <- "+fwdExpr(w.Elem, v))
-		if w.FwdSpawn == 0 {
-			fmt.Fprintf(&b, "go func() {\n%s\nexited(\"%s\", cl%d)\ncl%d = true\nclose(%s)\n}()\n", loop, in, s-1, s, out)
-		} else {
-			fmt.Fprintf(&b, "func fwd%d(a, b, c, d, e) {\n%s\nexited(\"%s\", cl%d)\ncl%d = true\nclose(%s)\n}\ngo fwd%d(1, 2, 3, 4, 5)\n", s, loop, in, s-1, s, out, s)
+		ploop := consumerLoop(w.FwdForm[s-1], "pin", v, "pout <- "+fwdExpr(w.Elem, v))
+		tail := fmt.Sprintf("exited(\"%s\", cl%d)\ncl%d = true\n", in, s-1, s)
+		switch w.FwdSpawn % 4 {
+		case 0:
+			fmt.Fprintf(&b, "go func() {\n%s\n%sclose(%s)\n}()\n", loop, tail, out)
+		case 1:
+			fmt.Fprintf(&b, "func fwd%d(pin, b, c, d, pout) {\n%s\n%sclose(pout)\n}\ngo fwd%d(%s, 2, 3, 4, %s)\n", s, ploop, tail, s, in, out)
+		case 2:
+			fmt.Fprintf(&b, "func fwd%d(pin, b, pout) {\n%s\n%sclose(pout)\n}\ngo fwd%d(%s, 2, %s)\n", s, ploop, tail, s, in, out)
+		default:
+			fmt.Fprintf(&b, "func fwd%d(pin, rest...) {\npout = rest[0]\n%s\n%sclose(pout)\n}\ngo fwd%d(%s, %s)\n", s, ploop, tail, s, in, out)
 		}
 	}
 	last := fmt.Sprintf("ch%d", stages-1)
@@ -234,13 +294,17 @@ func Render(w *Work) string {
 			rb = 2
 		}
 		fmt.Fprintf(&b, "res = make(chan %s, %d)\nwd = make(chan int64)\n", w.Elem, rb)
-		fmt.Fprintf(&b, "func worker(k) {\n%s\nexited(\"%s\", cl%d)\nwd <- k\n}\n", consumerLoop(w.WorkForm, last, "wv", "res <- wv"), last, stages-1)
+		fmt.Fprintf(&b, "func worker(k) {\n%s\nexited(\"%s\", cl%d)\nwd <- k\n}\n", consumerLoop(w.WorkForm, last, "wv", map[bool]string{false: "res <- wv", true: "func(x) { res <- x }(wv)"}[w.AnonSend]), last, stages-1)
 		fmt.Fprintf(&b, "for wk = 0; wk < %d; wk++ { go worker(wk) }\n", w.Workers)
 		fmt.Fprintf(&b, "go func() {\nfor k = 0; k < %d; k++ { <-wd }\nclres = true\nclose(res)\n}()\n", w.Workers)
 		last = "res"
 	}
 	b.WriteString("out = []\n")
-	b.WriteString(consumerLoop(w.ConsForm, last, "vm", "emit(vm)\nout += vm") + "\n")
+	if w.Nils {
+		b.WriteString(consumerLoop(w.ConsForm, last, "vm", "emit(vm)") + "\n")
+	} else {
+		b.WriteString(consumerLoop(w.ConsForm, last, "vm", "emit(vm)\nout += vm") + "\n")
+	}
 	if last == "res" {
 		b.WriteString("exited(\"res\", clres)\n")
 	} else {
@@ -277,7 +341,9 @@ func expected(w *Work) [][]interface{} {
 			case "string":
 				v = str + strings.Repeat("!", stages-1)
 			case "interface":
-				if i%2 == 0 {
+				if w.Nils && i%3 == 0 {
+					v = nil
+				} else if i%2 == 0 {
 					v = num
 				} else {
 					v = str
@@ -353,6 +419,16 @@ func (Prop) Run(t *testing.T, c *harness.Case, verbose bool) *harness.Result {
 			mu.Unlock()
 		})
 		e.Define("sleep", func(ms int64) { simrt.Sleep(time.Duration(ms) * time.Millisecond) })
+		e.Define("args", func(xs ...interface{}) {
+			simrt.Yield("probe")
+			mu.Lock()
+			if id, ok := xs[0].(int64); ok {
+				probes[fmt.Sprintf("args%d", id)] = fmt.Sprint(xs)
+			} else {
+				probes["args?"] = fmt.Sprint(xs)
+			}
+			mu.Unlock()
+		})
 		e.Define("exited", func(ch string, closed bool) {
 			simrt.Yield("probe")
 			if !closed {
@@ -423,6 +499,12 @@ func judge(wp *Work, got []interface{}, probes map[string]interface{}, mainVal i
 		if ch, ok := probes["early-exit"]; ok {
 			return fail("range-ended-before-close", fmt.Sprintf("a consumer loop over channel %v ended although the channel had not been closed yet (delivered: %s)", ch, order))
 		}
+		for p := range w.Items {
+			want := wantArgs(&w, p)
+			if got, _ := probes[fmt.Sprintf("args%d", p+1)].(string); got != want {
+				return fail("spawn-args", fmt.Sprintf("producer %d was started with parameters %v, the go statement passed %s (arguments are evaluated by the caller, at the go statement)", p+1, probes[fmt.Sprintf("args%d", p+1)], want))
+			}
+		}
 		if mainErr != nil {
 			return fail("script-error", fmt.Sprintf("the pipeline script failed: %v (delivered: %s)", mainErr, order))
 		}
@@ -452,13 +534,28 @@ func judge(wp *Work, got []interface{}, probes map[string]interface{}, mainVal i
 			exp = nil
 		}
 		next := make([]int, len(exp))
+		wantNil, gotNil := 0, 0
+		for _, seq := range exp {
+			for _, v := range seq {
+				if v == nil {
+					wantNil++
+				}
+			}
+		}
 		for _, v := range got {
-			p := producerOf(&w, v)
 			if exp == nil {
 				break
 			}
+			if v == nil {
+				gotNil++
+				continue
+			}
+			p := producerOf(&w, v)
 			if p < 1 || p > len(exp) {
 				return fail("phantom-item", fmt.Sprintf("consumer received %#v which no producer sent (delivered: %s)", v, order))
+			}
+			for next[p-1] < len(exp[p-1]) && exp[p-1][next[p-1]] == nil {
+				next[p-1]++ // nil items carry no producer tag: they are counted, not ordered
 			}
 			if next[p-1] >= len(exp[p-1]) {
 				return fail("duplicated-item", fmt.Sprintf("consumer received more items from producer %d than were sent: %#v (delivered: %s)", p, v, order))
@@ -470,12 +567,18 @@ func judge(wp *Work, got []interface{}, probes map[string]interface{}, mainVal i
 			next[p-1]++
 		}
 		for p := range exp {
+			for next[p] < len(exp[p]) && exp[p][next[p]] == nil {
+				next[p]++
+			}
 			if next[p] != len(exp[p]) {
 				return fail("lost-item", fmt.Sprintf("producer %d sent %d items, consumer received %d (delivered: %s)", p+1, len(exp[p]), next[p], order))
 			}
 		}
+		if exp != nil && gotNil != wantNil {
+			return fail("lost-item", fmt.Sprintf("%d nil items were sent on the interface channel, %d were delivered (delivered: %s)", wantNil, gotNil, order))
+		}
 		// the collected list returned to the host equals what was emitted
-		if lst, ok := mainVal.([]interface{}); !ok || fmt.Sprint(lst) != order {
+		if lst, ok := mainVal.([]interface{}); !w.Nils && (!ok || fmt.Sprint(lst) != order) {
 			return fail("result-mismatch", fmt.Sprintf("script returned %#v, emitted %s", mainVal, order))
 		}
 		if w.Epilogue {
@@ -522,6 +625,15 @@ func RunReal(c *harness.Case) (string, string) {
 	e.Define("emit", func(v interface{}) { mu.Lock(); got = append(got, v); mu.Unlock() })
 	e.Define("probe", func(tag string, v interface{}) { mu.Lock(); probes[tag] = v; mu.Unlock() })
 	e.Define("sleep", func(ms int64) { time.Sleep(time.Duration(ms) * time.Microsecond) })
+	e.Define("args", func(xs ...interface{}) {
+		mu.Lock()
+		if id, ok := xs[0].(int64); ok {
+			probes[fmt.Sprintf("args%d", id)] = fmt.Sprint(xs)
+		} else {
+			probes["args?"] = fmt.Sprint(xs)
+		}
+		mu.Unlock()
+	})
 	e.Define("exited", func(ch string, closed bool) {
 		if !closed {
 			mu.Lock()
